@@ -70,6 +70,21 @@ int main(int argc, char **argv) {
   const char *kf = getenv("VERIF_KNOWN_FINDINGS");
   kfLoad(kf ? kf : "/verif/known_findings.json");
   if (cmd == "replay") return cmdReplay(argc > 2 ? argv[2] : "");
+  if (cmd == "dbgparse") { // pbt dbgparse FILE input# la one cost rec dbg  : one parse in-process, library debug output to stderr
+    std::ifstream f(argv[2]);
+    std::stringstream ss; ss << f.rdbuf();
+    Case cs;
+    if (!parseCase(ss.str(), cs)) return 2;
+    Binding *b = newCBinding();
+    b->create();
+    int rc = defineGrammar(*b, cs.grams[0]);
+    printf("define rc=%d %s\n", rc, b->error_message());
+    Conf cf; cf.la = atoi(argv[4]); cf.one = atoi(argv[5]); cf.cost = atoi(argv[6]); cf.rec = atoi(argv[7]); cf.dbg = atoi(argv[8]);
+    yaep_verif.track = 1;
+    Outcome o = runParse(*b, cs.inputs[atoi(argv[3])], cf);
+    printf("%s\nhooks: reuse=%d copy=%d reuse_of_copied=%d skipped_origin=%d\n", o.str().c_str(), o.hook.n_reuse, o.hook.n_copy, o.hook.n_reuse_of_copied, o.hook.n_skipped_origin);
+    return 0;
+  }
   if (cmd == "rules") {
     printf("{");
     bool first = true;
